@@ -23,7 +23,9 @@ RULE = ("grids w,h,d in 1..4 (1-D, 2-D, 3-D; size <= 36), 1..3 environments, cel
         "units system that may differ from the grid's; index maps: random environment-respecting partitions (non-contiguous groups, "
         "singletons), block maps, identity, one group per environment, each with 0..several dropped cells of several environments; "
         "invalid stream: wrong length, missing index, entry < -1, all dropped, group mixing environments, non-int entries, periodic "
-        "grid; states: integers / fractions / zeros, random 0/1 chemostat maps, 1..3 species, random units systems. "
+        "grid; states: integers / fractions / zeros given in the system's or in their own quantity unit, random 0/1 chemostat maps, "
+        "1..3 species, random units systems; engine runs: identity map vs plain simulation (two species, chemostated entries) and "
+        "simulate(cgmap=map) structure (even spreading, dropped zero, chemostated groups constant, free species conserved). "
         "A case is non-trivial when at least one group has >= 2 cells or a cell is dropped; distinct by (shape, envs, map, h, units)")
 ASSUMPTIONS = [
     "cell volumes are cubes of rational edges (V = h^3, DESIGN §4); the code's cube / square roots are compared to the exact model "
@@ -207,6 +209,8 @@ def gen_case(rng, invalid=False, periodic=False):
     gsys = (rng.choice(SPACE), rng.choice(TIME), rng.choice(QTY))
     vsys = gsys if same else (rng.choice(["µm", "nm", "mm", "dm", "m", "cm"]), gsys[1], gsys[2])
     ssys = gsys if rng.random() < 0.5 else (rng.choice(SPACE), rng.choice(TIME), rng.choice(QTY))
+    # the state may be given in its own units (UnitArray with explicit units), different from the system's
+    stsys = ssys if rng.random() < 0.5 else (rng.choice(SPACE), rng.choice(TIME), rng.choice(QTY))
     ns = rng.randint(1, 3)
     if invalid:
         im, kind = gen_invalid_map(rng, shape, envs)
@@ -225,13 +229,13 @@ def gen_case(rng, invalid=False, periodic=False):
     if periodic:
         per = {"x": "reflecting", "y": "reflecting", "z": "reflecting"}
         per[rng.choice("xyz")] = "periodical"
-    return dict(shape=shape, envs=envs, nenv=nenv, h=h, gsys=gsys, vsys=vsys, ssys=ssys, ns=ns, im=im, kind=kind, state=state, chem=chem,
+    return dict(shape=shape, envs=envs, nenv=nenv, h=h, gsys=gsys, vsys=vsys, ssys=ssys, stsys=stsys, ns=ns, im=im, kind=kind, state=state, chem=chem,
                 periodic=per)
 
 
 def case_json(c):
     return {"shape": list(c["shape"]), "envs": c["envs"], "nenv": c["nenv"], "h": rstr(c["h"]), "gsys": list(c["gsys"]), "vsys": list(c["vsys"]),
-            "ssys": list(c["ssys"]), "ns": c["ns"], "im": [g if type(g) is int else repr(g) for g in c["im"]], "kind": c["kind"],
+            "ssys": list(c["ssys"]), "stsys": list(c.get("stsys", c["ssys"])), "ns": c["ns"], "im": [g if type(g) is int else repr(g) for g in c["im"]], "kind": c["kind"],
             "state": c["state"], "chem": c["chem"], "periodic": c["periodic"]}
 
 
@@ -241,7 +245,7 @@ def build(c):
                        c["ns"], c.get("periodic"))
     from strengths import UnitArray
     from strengths.units import Units, UnitsSystem, UnitsDimensions
-    sysm.state = UnitArray(list(c["state"]), Units(UnitsSystem(*c["ssys"]), UnitsDimensions(0, 0, 1)))
+    sysm.state = UnitArray(list(c["state"]), Units(UnitsSystem(*c.get("stsys", c["ssys"])), UnitsDimensions(0, 0, 1)))
     sysm.chemostats = list(c["chem"])
     return sysm
 
@@ -279,7 +283,7 @@ def brute_force(c):
     coords = [(i % w, (i // w) % h, i // (w * h)) for i in range(n)]
     vols = [len(m) * hs ** 3 for m in members]
     genv = [envs[m[0]] for m in members]
-    qf = si_qty(c["ssys"][2])
+    qf = si_qty(c.get("stsys", c["ssys"])[2])
     state = [[sum(frac(c["state"][s * n + i]) for i in m) * qf for m in members] for s in range(ns)]
     chem = [[1 if any(c["chem"][s * n + i] for i in m) else 0 for m in members] for s in range(ns)]
     cent = [tuple(sum(Fraction(coords[i][a]) for i in m) / len(m) * hs for a in range(3)) for m in members]
@@ -340,9 +344,9 @@ def oracle_cg(ctx, c, got, case):
         return
     n = len(c["envs"])
     for s in range(ns):
-        tot_fine = sum(frac(c["state"][s * n + i]) for i in range(n) if c["im"][i] != -1) * si_qty(c["ssys"][2])
+        tot_fine = sum(frac(c["state"][s * n + i]) for i in range(n) if c["im"][i] != -1) * si_qty(c.get("stsys", c["ssys"])[2])
         tot_cg = sum(sv[s * ng + g] for g in range(ng))
-        mag = sum(abs(frac(c["state"][s * n + i])) for i in range(n)) * si_qty(c["ssys"][2])
+        mag = sum(abs(frac(c["state"][s * n + i])) for i in range(n)) * si_qty(c.get("stsys", c["ssys"])[2])
         if not close(tot_cg, tot_fine, mag=mag, rel=1e-12):
             ctx.violation(key0 + ":species-total", "species %d: coarse total %s, fine total over retained cells %s (SI)" % (s, fstr(tot_cg), fstr(tot_fine)),
                           case, impl=fstr(tot_cg), expected=fstr(tot_fine))
@@ -408,7 +412,7 @@ def compare_model(ctx, c, got, m, case):
     ok = ok and len(sv) == len(mo["state"]) and all(close(v, rparse(q), mag=mag, rel=1e-12) for v, q in zip(sv, mo["state"]))
     ok = ok and got["chem"] == mo["chem"]
     su = got["state"].units.sys
-    ok = ok and (su.space, su.time, su.quantity) == tuple(c["ssys"])
+    ok = ok and su.quantity == c.get("stsys", c["ssys"])[2]      # the aggregated state keeps the state's own units
     if not ok:
         ctx.disagree("coarsegrain", case, {"vols": [str(v) for v in got["vols"]], "envs": got["envs"],
                                             "edges": [(i, j, str(a), str(b)) for i, j, a, b in got["edges"]], "state": sv, "chem": got["chem"]}, mo)
@@ -513,9 +517,19 @@ def identity_runs(ctx, rng, count):
         d = {"network": {"species": species, "reactions": reactions, "environments": ["e%d" % e for e in range(nenv)]},
              "space": {"w": shape[0], "h": shape[1], "d": shape[2], "cell_env": envs, "cell_vol": 1}}
         system = rdsystem_from_dict(d)
+        # chemostats on some (species, cell) entries (two species, so species-major and cell-major flag layouts differ);
+        # not for the stochastic runs with diffusion, whose comparison uses the conservation of A + B
+        chem = [0] * (2 * n)
+        if option == "euler" or not diffuse:
+            chem = [1 if rng.random() < 0.3 else 0 for _ in range(2 * n)]
+            if n > 1 and sum(chem) in (0, 2 * n):
+                chem = [0] * (2 * n)
+                chem[rng.randrange(2 * n)] = 1
+        system.chemostats = list(chem)
         ts = [0.0, 0.125, 0.25, 0.5]
         seed = rng.randint(1, 10 ** 6)
-        case = {"identity": {"system": d, "option": option, "t_sample": ts, "seed": seed, "time_step": 1 / 64, "diffuse": diffuse}}
+        case = {"identity": {"system": d, "chem": chem, "option": option, "t_sample": ts, "seed": seed, "time_step": 1 / 64, "diffuse": diffuse}}
+        ctx.count("identity_with_chemostats" if any(chem) else "identity_without_chemostats")
         ok, detail = identity_compare(system, option, ts, seed, 1 / 64, diffuse)
         ctx.case(("identity", option, diffuse, shape, tuple(envs), seed), nontrivial=n > 1)
         ctx.count("identity_%s_%s" % (option, "diffusion" if diffuse else "reaction_only"))
@@ -620,6 +634,12 @@ def simulate_cg_check(c, ts, dt):
                             bad = bad or "sample 0 species %d group %d is %r, initial group total / size = %s" % (s, g, row[members[g][0]], fstr(e0))
                 if any(row[i] != 0.0 for i in range(n) if im[i] == -1):
                     bad = bad or "sample %d species %d: dropped cell non-zero" % (kk, s)
+                # a group chemostated for this species (some member flagged) keeps its initial value at every sample
+                row0 = vals[s * n:(s + 1) * n]
+                for g in range(ng):
+                    if any(c["chem"][s * n + i] for i in members[g]) and not close(row[members[g][0]], frac(row0[members[g][0]]), mag=1, rel=1e-9):
+                        bad = bad or "sample %d species %d group %d is chemostated but changed from %r to %r" % (kk, s, g, row0[members[g][0]], row[members[g][0]])
+                    # and an un-chemostated group exchanging matter is not frozen: checked through the species total below
                 if free[s] and not close(sum(frac(v) for v in row), tot0, mag=max(tot0, 1), rel=1e-9):
                     bad = bad or "sample %d species %d: total %s, retained cells initially hold %s" % (kk, s, fstr(sum(frac(v) for v in row)), fstr(tot0))
     if bad:
@@ -632,7 +652,7 @@ def cg_structure_runs(ctx, rng, count):
     sample constant within groups, dropped cells zero, species totals over retained cells preserved when nothing reacts"""
     for k in range(count):
         c = gen_case(rng)
-        c["gsys"] = c["vsys"] = c["ssys"] = ("µm", "s", "molecule")
+        c["gsys"] = c["vsys"] = c["ssys"] = c["stsys"] = ("µm", "s", "molecule")
         ts = [0.0, 0.25, 0.5]
         case = {"sys": case_json(c), "simulate_cg": {"t_sample": ts, "time_step": 1 / 64}}
         st, det = simulate_cg_check(c, ts, 1 / 64)
@@ -674,7 +694,7 @@ def run(ctx):
             [gen_case(rng, periodic=True) for _ in range(ctx.n(6, 100))]
     # the seeded / documented example: dropping cells of two environments
     base = dict(shape=(4, 1, 1), envs=[0, 1, 0, 1], nenv=2, h=Fraction(1), gsys=("µm", "s", "molecule"), vsys=("µm", "s", "molecule"),
-                ssys=("µm", "s", "molecule"), ns=1, kind="corpus", state=[4.0, 6.0, 4.0, 6.0], chem=[0, 0, 0, 0], periodic=None)
+                ssys=("µm", "s", "molecule"), stsys=("µm", "s", "molecule"), ns=1, kind="corpus", state=[4.0, 6.0, 4.0, 6.0], chem=[0, 0, 0, 0], periodic=None)
     for im in ([-1, -1, 0, 1], [-1, 0, -1, 0], [0, -1, 1, -1], [-1, 1, 0, -1], [0, 1, 2, 3]):
         cases.insert(0, dict(base, im=im))
     batch = 400
@@ -698,6 +718,8 @@ def run(ctx):
                 ctx.count("drops_of_several_environments")
             if tuple(c["vsys"]) != tuple(c["gsys"]):
                 ctx.count("cell_vol_in_other_units")
+            if c.get("stsys", c["ssys"])[2] != c["ssys"][2]:
+                ctx.count("state_in_other_quantity_unit")
             groups = [g for g in c["im"] if type(g) is int and g >= 0]
             nontriv = (len(groups) != len(set(groups))) or (-1 in [g for g in c["im"] if type(g) is int]) or not valid
             ctx.case(("cg", tuple(c["shape"]), tuple(c["envs"]), tuple(repr(g) for g in c["im"]), rstr(c["h"]), tuple(c["vsys"]), tuple(c["gsys"])),
@@ -822,7 +844,10 @@ def replay(ctx, rec):
     if "identity" in case:
         from strengths import rdsystem_from_dict
         d = case["identity"]
-        ok, det = identity_compare(rdsystem_from_dict(d["system"]), d["option"], d["t_sample"], d["seed"], d["time_step"], d.get("diffuse", True))
+        system = rdsystem_from_dict(d["system"])
+        if d.get("chem"):
+            system.chemostats = list(d["chem"])
+        ok, det = identity_compare(system, d["option"], d["t_sample"], d["seed"], d["time_step"], d.get("diffuse", True))
         return ok, det
     c = dict(case["sys"])
     c["h"] = Fraction(c["h"])
